@@ -314,8 +314,9 @@ theorem bfx_refines_spec {map0 : IMap} (hw : WF map0) (frames : List (Frame BfxE
 
 /-- (B4) The hint's statement. After a successful validation every subscription of the map has been
 confirmed, and (channel ids pairwise distinct) the returned map contains exactly the confirmed channel ids,
-each mapped to the instrument that was subscribed under the confirmed `channel|market` key; no
-`channel|market` key is left. -/
+each mapped to the instrument that was subscribed under the confirmed `channel|market` key. Without
+`distinctIds`: no `channel|market` key is left (`bfx_no_sub_key_left`) and every entry is such a pair
+(`bfx_map_within_rekeyed`), but entries can be missing (`bfx_shared_id_loses_instrument`). -/
 theorem bfx_map_is_rekeyed {map0 : IMap} (hw : WF map0) (frames : List (Frame BfxEvent)) (m : IMap)
     (b : List Nat) (rest : List (Frame BfxEvent)) (h : validateBfx map0 frames = .ok (m, b, rest)) :
     ∃ pre, frames = pre ++ rest ∧
@@ -479,11 +480,155 @@ example : validateBfx bfxMap
     = .error .ended := by decide
 
 /-- Bitfinex: the same channel id announced for two subscriptions overwrites an entry (outside
-`distinctIds`; the theorems then only promise a map without duplicate keys) -/
+`distinctIds`; the theorems then promise a map without duplicate keys, without `channel|market` keys and with
+only rightly filed instruments: `bfx_no_sub_key_left`, `bfx_map_within_rekeyed`; named witness
+`bfx_shared_id_loses_instrument`) -/
 example : validateBfx bfxMap
     [.resp (.subscribed 0 0 10), .other 1, .resp (.subscribed 0 1 10), .other 2]
     = .ok ([(.chan 10, 6)], [1, 2], []) := by decide
 
 end Witnesses
+
+/-! ## Added after the review of the sub-check theorems
+
+What holds of the Bitfinex map WITHOUT the `distinctIds` hypothesis (B4a, B4b) and what does not (B4c); what
+"pings only re-arm the timer" means in general (8''a) and why `pings_invisible` needs `NoWaits` (8''b); the
+instrument map the generic validators hand back (S). -/
+
+section Added
+
+/-- (B4a) **No hypothesis on the channel ids.** After a successful validation no `channel|market` key is left
+in the returned map, whatever ids the venue announced (also when it announced the same id twice). Needs only
+that the original map has one entry per key (`Map::from_iter`: `ofList_wf`). -/
+theorem bfx_no_sub_key_left {map0 : IMap} (hn : KeysNodup map0) (frames : List (Frame BfxEvent)) (m : IMap)
+    (b : List Nat) (rest : List (Frame BfxEvent)) (h : validateBfx map0 frames = .ok (m, b, rest)) :
+    ∀ c mk ins, (Key.sub c mk, ins) ∉ m := by
+  obtain ⟨pre, h1, _, h3, _⟩ := (bfx_ok_iff hn frames b rest).mp ⟨m, h⟩
+  rw [validateBfx_eq_scan hn] at h
+  obtain ⟨mid, tl, h1', _, _, h4⟩ := (scanWith_ok_iff _ _ _).mp h
+  simp at h4
+  obtain ⟨hm, _, hr⟩ := h4
+  subst hr
+  have hpp : mid = pre := List.append_cancel_right (h1'.symm.trans (by simpa using h1))
+  subst hpp
+  simp only [completeBfx, Bool.and_eq_true, beq_iff_eq] at h3
+  have hall := List.length_filter_eq_length_iff.mp h3.1
+  intro c mk ins hmem
+  have hsome : ((mapAfter map0 mid).get (.sub c mk)).isSome :=
+    (IMap.get_isSome_iff _ _).mpr ⟨ins, by rw [← hm]; exact hmem⟩
+  rw [mapAfter_get_sub] at hsome
+  cases hc : chanIdOf mid (.sub c mk) with
+  | some id => simp [hc] at hsome
+  | none =>
+    simp [hc] at hsome
+    obtain ⟨v, hv⟩ := (IMap.get_isSome_iff map0 _).mp hsome
+    have := hall (.sub c mk, v) hv
+    simp [hc] at this
+
+/-- (B4b) **No hypothesis on the channel ids.** Every entry of the returned map is a confirmed channel id
+mapped to an instrument that was subscribed under a `channel|market` key whose FIRST confirmation announced
+that id: nothing is invented and no instrument is filed under a foreign id. (What can still go wrong without
+`distinctIds` is that entries are missing: `bfx_shared_id_loses_instrument`.) -/
+theorem bfx_map_within_rekeyed {map0 : IMap} (hn : KeysNodup map0) (frames : List (Frame BfxEvent)) (m : IMap)
+    (b : List Nat) (rest : List (Frame BfxEvent)) (h : validateBfx map0 frames = .ok (m, b, rest)) :
+    ∃ pre, frames = pre ++ rest ∧
+      ∀ key ins, (key, ins) ∈ m →
+        ∃ k0 id, (k0, ins) ∈ map0 ∧ chanIdOf pre k0 = some id ∧ key = .chan id := by
+  obtain ⟨pre, h1, _, h3, _⟩ := (bfx_ok_iff hn frames b rest).mp ⟨m, h⟩
+  rw [validateBfx_eq_scan hn] at h
+  obtain ⟨mid, tl, h1', _, _, h4⟩ := (scanWith_ok_iff _ _ _).mp h
+  simp at h4
+  obtain ⟨hm, _, hr⟩ := h4
+  subst hr
+  have hpp : mid = pre := List.append_cancel_right (h1'.symm.trans (by simpa using h1))
+  subst hpp
+  simp only [completeBfx, Bool.and_eq_true, beq_iff_eq] at h3
+  have hall := List.length_filter_eq_length_iff.mp h3.1
+  refine ⟨mid, h1, ?_⟩
+  intro key ins hmem
+  rw [hm] at hmem
+  obtain ⟨e, he, hex⟩ := (mem_rekey map0 mid _).mp (mapAfter_subset_rekey hn mid _ hmem)
+  have hs := hall e he
+  obtain ⟨id, hid⟩ := Option.isSome_iff_exists.mp hs
+  simp only [rk, rekeyEntry, hid] at hex
+  cases hex
+  exact ⟨e.1, id, he, hid, rfl⟩
+
+/-- (B4c) Witness outside `distinctIds`: the venue announces channel id 10 for both subscriptions; the
+validation succeeds, instrument 5 is gone from the returned map, and the map still has no `channel|market`
+key and only confirmed ids (B4a, B4b). So the "exactly the confirmed ids with their instruments" half of
+`bfx_map_is_rekeyed` does need `distinctIds`. -/
+theorem bfx_shared_id_loses_instrument :
+    let map0 : IMap := IMap.ofList [(.sub 0 0, 5), (.sub 0 1, 6)]
+    let frames : List (Frame BfxEvent) :=
+      [.resp (.subscribed 0 0 10), .other 1, .resp (.subscribed 0 1 10), .other 2]
+    validateBfx map0 frames = .ok ([(.chan 10, 6)], [1, 2], []) ∧ distinctIds map0 frames = false := by
+  decide
+
+/-- (8''a) What "re-arming" means, for every history: the silence the timeout is compared with restarts at
+every item that is not itself a silence (response, payload, ping/pong, ...), and a `wait` prolongs it. -/
+theorem silence_restarts_at_every_item {R : Type} (pre : List (Frame R)) (f : Frame R) :
+    silence (pre ++ [f]) = if isWait f then silence pre + waitMs f else 0 :=
+  silence_snoc pre f
+
+/-- (8''b) `pings_invisible` needs `NoWaits`: with silences in the input a ping is visible, it re-arms the
+timer. Two 9 s silences with a ping in between validate; without the ping they time out. -/
+theorem ping_rearms_timer :
+    validateGeneric .kraken 1 [.wait 9000, .skip, .wait 9000, .resp (.kraken (.subscribed 1))] = .ok ([], []) ∧
+    validateGeneric .kraken 1 [.wait 9000, .wait 9000, .resp (.kraken (.subscribed 1))] = .error .timeout := by
+  decide
+
+/-- (S) The generic validators hand the instrument map back unchanged; the map itself is `Map::from_iter`
+of the subscriber's entries, under which a key carries the instrument of the LAST entry with that key. -/
+theorem ofList_get_is_last_entry (es : List (Key × Nat)) (k : Key) :
+    (IMap.ofList es).get k = lastEntry es k :=
+  IMap.get_ofList es k
+
+/-- ... stated on entries (the map has one entry per key: `ofList_wf`). -/
+theorem ofList_mem_iff_last_entry (es : List (Key × Nat)) (k : Key) (v : Nat) :
+    (k, v) ∈ IMap.ofList es ↔ lastEntry es k = some v := by
+  rw [← IMap.get_ofList, IMap.get_eq_some_iff (IMap.ofList_keysNodup es)]
+
+end Added
+
+section Added2
+variable {R : Type} (validate : R → Option RespErr) (T k : Nat)
+
+/-- (10') `readings_agree_within_deadline` with the hypothesis where it belongs: only the CONSUMED part of the
+input has to fit into the timeout. If the code validates successfully and what it consumed took less than `T`
+in total, the one-deadline reading validates too, with the same buffer and the same unread input (the converse
+is `deadline_ok_is_code_ok`, without hypothesis). -/
+theorem code_ok_within_deadline_is_deadline_ok (pre rest : List (Frame R)) (b : List Nat)
+    (h : run validate T k {} (pre ++ rest) = .ok (b, rest)) (hT : elapsed pre < T) :
+    specDeadline validate T k (pre ++ rest) = .ok (b, rest) := by
+  obtain ⟨pre', h1, h2, h3, h4⟩ := (ok_iff validate T k (pre ++ rest) b rest).mp h
+  have hp : pre = pre' := List.append_cancel_right h1
+  subst hp
+  rw [specDeadline]
+  refine (scanWith_ok_iff _ _ _).mpr ⟨pre, rest, rfl, ?_, by simpa using h3, by simp [h4]⟩
+  rw [steps_take_iff]
+  have hs := (proceeds_iff validate T k [] pre).mp h2
+  intro i hi
+  obtain ⟨hc, hf⟩ := hs i hi
+  refine ⟨by simpa using hc, ?_⟩
+  cases hfi : pre[i] with
+  | wait d =>
+    have hsplit : pre = pre.take i ++ pre[i] :: pre.drop (i + 1) := by
+      rw [List.getElem_cons_drop, List.take_append_drop]
+    have he : elapsed (pre.take i) + d ≤ elapsed pre := by
+      have h2' : elapsed pre = elapsed (pre.take i) + (d + elapsed (pre.drop (i + 1))) := by
+        conv => lhs; rw [hsplit]
+        simp [elapsed, hfi, waitMs]
+      omega
+    simp only [fatal, List.nil_append]
+    rw [if_neg (by omega)]
+  | resp r =>
+    rw [hfi] at hf
+    simpa [fatal] using hf
+  | close => rw [hfi] at hf; simp [fatal] at hf
+  | transportErr => rw [hfi] at hf; simp [fatal] at hf
+  | _ => simp [fatal]
+
+end Added2
 
 end BarterModel.Props.C13S
